@@ -58,14 +58,16 @@ the crossing point of the crossed input edge `a–b`, `existing_vertices_found[i
 def TablesOK {K : Type} [Num K] (n : V3 K) (bias eps : K) (V0 : Array (V3 K)) (st : Section.State K) : Prop :=
   (∀ key v, st.found.lookup key = some v → v < st.verts.size ∧ ∃ a b, sortedPair a b = key ∧
       OppCol (vcol n bias eps V0 a) (vcol n bias eps V0 b) ∧ st.verts.getD v V3.zero = xpt n bias V0 a b) ∧
-  (∀ id v, st.existing.lookup id = some v → v < st.verts.size ∧ st.verts.getD v V3.zero = V0.getD id V3.zero)
+  (∀ id v, st.existing.lookup id = some v → v < st.verts.size ∧ st.verts.getD v V3.zero = V0.getD id V3.zero) ∧
+  (∀ key key' v, st.found.lookup key = some v → st.found.lookup key' = some v → key = key')
 
 /-- `st'` is `st` after one `entry(..).or_insert_with(push)`: the adjacency lists are untouched, the returned index `o` is valid and
 names a polyline vertex at position `P`; if a vertex was created it is the last one and `o` names it; older vertices are unchanged -/
 def Alloc {K : Type} [Num K] (n : V3 K) (bias eps : K) (V0 : Array (V3 K)) (st st' : Section.State K) (o : Nat) (P : V3 K) : Prop :=
   st'.adj = st.adj ∧ TablesOK n bias eps V0 st' ∧ o < st'.verts.size ∧
   (st'.verts.size = st.verts.size ∨ (st'.verts.size = st.verts.size + 1 ∧ o = st.verts.size)) ∧
-  (∀ j, j < st.verts.size → st'.verts.getD j V3.zero = st.verts.getD j V3.zero) ∧ st'.verts.getD o V3.zero = P
+  (∀ j, j < st.verts.size → st'.verts.getD j V3.zero = st.verts.getD j V3.zero) ∧ st'.verts.getD o V3.zero = P ∧
+  (∀ key v, st.found.lookup key = some v → st'.found.lookup key = some v)
 
 /-- invariant of the triangle loop of the section routine -/
 structure SInv {K : Type} [Num K] (n : V3 K) (bias eps : K) (V0 : Array (V3 K)) (st : Section.State K) : Prop where
@@ -94,13 +96,13 @@ private theorem alloc_existing (n : V3 K) (bias eps : K) (V0 : Array (V3 K)) (st
   cases hl : st.existing.lookup id with
   | some k =>
     have e : Section.existingVertex V0 st id = (st, k) := by simp only [Section.existingVertex, hl]
-    rw [e]; exact ⟨rfl, h, (h.2 _ _ hl).1, Or.inl rfl, fun _ _ => rfl, (h.2 _ _ hl).2⟩
+    rw [e]; exact ⟨rfl, h, (h.2.1 _ _ hl).1, Or.inl rfl, fun _ _ => rfl, (h.2.1 _ _ hl).2, fun _ _ x => x⟩
   | none =>
     have e : Section.existingVertex V0 st id =
         ({ st with verts := st.verts.push (V0.getD id V3.zero), existing := (id, st.verts.size) :: st.existing }, st.verts.size) := by
       simp only [Section.existingVertex, hl]
     rw [e]
-    refine ⟨rfl, ⟨?_, ?_⟩, by simp, Or.inr ⟨by simp, rfl⟩, ?_, ?_⟩
+    refine ⟨rfl, ⟨?_, ?_, h.2.2⟩, by simp, Or.inr ⟨by simp, rfl⟩, ?_, ?_, fun _ _ x => x⟩
     · intro key v hk
       obtain ⟨h1, a, b, h2, h3, h4⟩ := h.1 key v hk
       refine ⟨by show v < (st.verts.push _).size; simp; omega, a, b, h2, h3, ?_⟩
@@ -108,7 +110,7 @@ private theorem alloc_existing (n : V3 K) (bias eps : K) (V0 : Array (V3 K)) (st
       rw [getD_push_lt _ _ _ _ h1]; exact h4
     · apply lookup_cons_P
       · intro k w hk
-        obtain ⟨h1, h2⟩ := h.2 k w hk
+        obtain ⟨h1, h2⟩ := h.2.1 k w hk
         refine ⟨by show w < (st.verts.push _).size; simp; omega, ?_⟩
         show (st.verts.push _).getD w V3.zero = _
         rw [getD_push_lt _ _ _ _ h1]; exact h2
@@ -125,14 +127,15 @@ private theorem alloc_isect (n : V3 K) (bias eps : K) (he : 0 ≤ eps) (V0 : Arr
     (h : letI := fieldNum K sq; TablesOK n bias eps V0 st)
     (hab : letI := fieldNum K sq; OppCol (vcol n bias eps V0 a) (vcol n bias eps V0 b)) :
     letI := fieldNum K sq
-    Alloc n bias eps V0 st (Section.intersectEdge n bias V0 st a b).1 (Section.intersectEdge n bias V0 st a b).2 (xpt n bias V0 a b) := by
+    Alloc n bias eps V0 st (Section.intersectEdge n bias V0 st a b).1 (Section.intersectEdge n bias V0 st a b).2 (xpt n bias V0 a b) ∧
+    (Section.intersectEdge n bias V0 st a b).1.found.lookup (sortedPair a b) = some (Section.intersectEdge n bias V0 st a b).2 := by
   letI : Num K := fieldNum K sq
   cases hl : st.found.lookup (sortedPair a b) with
   | some k =>
     have e : Section.intersectEdge n bias V0 st a b = (st, k) := by simp only [Section.intersectEdge, hl]
     rw [e]
     obtain ⟨h1, a', b', hk, hc, hv⟩ := h.1 _ _ hl
-    refine ⟨rfl, h, h1, Or.inl rfl, fun _ _ => rfl, ?_⟩
+    refine ⟨⟨rfl, h, h1, Or.inl rfl, fun _ _ => rfl, ?_, fun _ _ x => x⟩, hl⟩
     rcases sortedPair_eq _ _ _ _ hk with ⟨rfl, rfl⟩ | ⟨rfl, rfl⟩
     · exact hv
     · show st.verts.getD k V3.zero = _
@@ -149,7 +152,16 @@ private theorem alloc_isect (n : V3 K) (bias eps : K) (he : 0 ≤ eps) (V0 : Arr
                    found := (sortedPair a b, st.verts.size) :: st.found }, st.verts.size) := by
       simp only [Section.intersectEdge, hl]
     rw [e]
-    refine ⟨rfl, ⟨?_, ?_⟩, by simp, Or.inr ⟨by simp, rfl⟩, ?_, ?_⟩
+    have hmono : ∀ key v, st.found.lookup key = some v →
+        List.lookup key ((sortedPair a b, st.verts.size) :: st.found) = some v := by
+      intro key v hk
+      simp only [List.lookup_cons]
+      split
+      · rename_i heq
+        have : key = sortedPair a b := by simpa using heq
+        rw [this, hl] at hk; simp at hk
+      · exact hk
+    refine ⟨⟨rfl, ⟨?_, ?_, ?_⟩, by simp, Or.inr ⟨by simp, rfl⟩, ?_, ?_, hmono⟩, by simp [List.lookup_cons]⟩
     · intro key v hk
       show v < (st.verts.push (crossing n bias (V0.getD a V3.zero) (V0.getD b V3.zero))).size ∧
           ∃ a' b', sortedPair a' b' = key ∧ OppCol (vcol n bias eps V0 a') (vcol n bias eps V0 b') ∧
@@ -167,15 +179,50 @@ private theorem alloc_isect (n : V3 K) (bias eps : K) (he : 0 ≤ eps) (V0 : Arr
         refine ⟨by simp; omega, a', b', h2, h3, ?_⟩
         rw [getD_push_lt _ _ _ _ h1]; exact h4
     · intro k w hk
-      obtain ⟨h1, h2⟩ := h.2 k w hk
+      obtain ⟨h1, h2⟩ := h.2.1 k w hk
       refine ⟨by show w < (st.verts.push _).size; simp; omega, ?_⟩
       show (st.verts.push _).getD w V3.zero = _
       rw [getD_push_lt _ _ _ _ h1]; exact h2
+    · intro key key' v hk hk'
+      change List.lookup key ((sortedPair a b, st.verts.size) :: st.found) = some v at hk
+      change List.lookup key' ((sortedPair a b, st.verts.size) :: st.found) = some v at hk'
+      by_cases e1 : key = sortedPair a b <;> by_cases e2 : key' = sortedPair a b
+      · rw [e1, e2]
+      · have hv : st.verts.size = v := by rw [e1] at hk; simpa [List.lookup_cons] using hk
+        have b2 : (key' == sortedPair a b) = false := by simpa using e2
+        simp only [List.lookup_cons, b2] at hk'
+        have := (h.1 key' _ hk').1; omega
+      · have hv : st.verts.size = v := by rw [e2] at hk'; simpa [List.lookup_cons] using hk'
+        have b1 : (key == sortedPair a b) = false := by simpa using e1
+        simp only [List.lookup_cons, b1] at hk
+        have := (h.1 key _ hk).1; omega
+      · have b1 : (key == sortedPair a b) = false := by simpa using e1
+        have b2 : (key' == sortedPair a b) = false := by simpa using e2
+        simp only [List.lookup_cons, b1] at hk
+        simp only [List.lookup_cons, b2] at hk'
+        exact h.2.2 key key' v hk hk'
     · intro j hj
       show (st.verts.push _).getD j V3.zero = _
       rw [getD_push_lt _ _ _ _ hj]
     · show (st.verts.push _).getD st.verts.size V3.zero = _
       rw [getD_push_eq]; rfl
+
+/-- the polyline vertex stored for the key of the input edge `a–b` is its crossing point (whichever way the edge was first visited) -/
+theorem tables_pos (n : V3 K) (bias eps : K) (he : 0 ≤ eps) (V0 : Array (V3 K)) (st : Section.State K) (a b i : Nat)
+    (h : letI := fieldNum K sq; TablesOK n bias eps V0 st) (hl : st.found.lookup (sortedPair a b) = some i) :
+    letI := fieldNum K sq
+    st.verts.getD i V3.zero = xpt n bias V0 a b := by
+  letI : Num K := fieldNum K sq
+  obtain ⟨h1, a', b', hk, hc, hv⟩ := h.1 _ _ hl
+  rcases sortedPair_eq _ _ _ _ hk with ⟨rfl, rfl⟩ | ⟨rfl, rfl⟩
+  · exact hv
+  · rw [hv]
+    simp only [xpt]
+    apply crossing_symm sq
+    have hsd := oppcol_sdist sq n bias eps he _ _ hc
+    rcases hsd with ⟨h1, h2⟩ | ⟨h1, h2⟩
+    · exact ne_of_lt (by linarith)
+    · exact ne_of_gt (by linarith)
 
 /-! ## `add_segment_adjacencies` -/
 
@@ -240,9 +287,10 @@ private theorem link_ok {K : Type} [Num K] (n : V3 K) (bias eps : K) (V0 : Array
         (fun adj => ({ st2 with adj := adj } : Section.State K)) = some st' ∧ SInv n bias eps V0 st' ∧
       (∀ i j, AEdge st'.adj i j ↔ (AEdge st.adj i j ∨ (i = o1 ∧ j = o2) ∨ (i = o2 ∧ j = o1))) ∧
       (∀ j, j < st.verts.size → st'.verts.getD j V3.zero = st.verts.getD j V3.zero) ∧ st.verts.size ≤ st'.verts.size ∧
-      st'.verts.getD o1 V3.zero = P1 ∧ st'.verts.getD o2 V3.zero = P2 := by
-  obtain ⟨a1, t1, l1, g1, k1, v1⟩ := A1
-  obtain ⟨a2, t2, l2, g2, k2, v2⟩ := A2
+      st'.verts.getD o1 V3.zero = P1 ∧ st'.verts.getD o2 V3.zero = P2 ∧
+      (∀ key v, st.found.lookup key = some v → st'.found.lookup key = some v) ∧ st'.found = st2.found := by
+  obtain ⟨a1, t1, l1, g1, k1, v1, m1⟩ := A1
+  obtain ⟨a2, t2, l2, g2, k2, v2, m2⟩ := A2
   have hs := hI.size
   have hadj : st2.adj = st.adj := by rw [a2, a1]
   have hsz : st2.adj.size = st.verts.size := by rw [hadj, hs]
@@ -272,10 +320,12 @@ private theorem link_ok {K : Type} [Num K] (n : V3 K) (bias eps : K) (V0 : Array
   cases swap
   · obtain ⟨adj', e, s, E⟩ := addAdjSym_ok st2.adj o1 o2 st2.verts.size ho1 l2 (by omega)
     obtain ⟨f1, f2⟩ := fin adj' s E
-    exact ⟨{ st2 with adj := adj' }, by simp [e], f1, f2, keep, (by show st.verts.size ≤ st2.verts.size; omega), vo1, v2⟩
+    exact ⟨{ st2 with adj := adj' }, by simp [e], f1, f2, keep, (by show st.verts.size ≤ st2.verts.size; omega), vo1, v2,
+      fun key v hk => m2 key v (m1 key v hk), rfl⟩
   · obtain ⟨adj', e, s, E⟩ := addAdjSym_ok st2.adj o2 o1 st2.verts.size l2 ho1 (by omega)
     obtain ⟨f1, f2⟩ := fin adj' s (fun i j => by rw [E]; tauto)
-    exact ⟨{ st2 with adj := adj' }, by simp [e], f1, f2, keep, (by show st.verts.size ≤ st2.verts.size; omega), vo1, v2⟩
+    exact ⟨{ st2 with adj := adj' }, by simp [e], f1, f2, keep, (by show st.verts.size ≤ st2.verts.size; omega), vo1, v2,
+      fun key v hk => m2 key v (m1 key v hk), rfl⟩
 
 /-! ## one triangle -/
 
@@ -290,17 +340,24 @@ def PlanePt {K : Type} [Num K] (n : V3 K) (bias eps : K) (V0 : Array (V3 K)) (t 
 def CrossedEdge {K : Type} [Num K] (n : V3 K) (bias eps : K) (V0 : Array (V3 K)) (t : Tri) (k : Nat) : Prop :=
   OppCol (vcol n bias eps V0 (t.get k)) (vcol n bias eps V0 (t.get ((k + 1) % 3)))
 
+/-- the key of edge `k` of `t` in `intersections_found` -/
+def edgeKey (t : Tri) (k : Nat) : Nat × Nat := sortedPair (t.get k) (t.get ((k + 1) % 3))
+
 /-- what one iteration of the triangle loop does to the polyline: old vertices stay; either no segment is added and no edge of `t`
 is crossed, or exactly one segment `o1 – o2` is added, both its end points are plane points of `t`, and the crossing point of
 every crossed edge of `t` is one of them -/
 def StepRel {K : Type} [Num K] (n : V3 K) (bias eps : K) (V0 : Array (V3 K)) (st st' : Section.State K) (t : Tri) : Prop :=
   (∀ j, j < st.verts.size → st'.verts.getD j V3.zero = st.verts.getD j V3.zero) ∧ st.verts.size ≤ st'.verts.size ∧
+  (∀ key v, st.found.lookup key = some v → st'.found.lookup key = some v) ∧
   ((st'.adj = st.adj ∧ ∀ k, k < 3 → ¬ CrossedEdge n bias eps V0 t k) ∨
    ∃ o1 o2, (∀ i j, AEdge st'.adj i j ↔ (AEdge st.adj i j ∨ (i = o1 ∧ j = o2) ∨ (i = o2 ∧ j = o1))) ∧
      PlanePt n bias eps V0 t (st'.verts.getD o1 V3.zero) ∧ PlanePt n bias eps V0 t (st'.verts.getD o2 V3.zero) ∧
-     ∀ k, k < 3 → CrossedEdge n bias eps V0 t k →
+     (∀ k, k < 3 → CrossedEdge n bias eps V0 t k →
        (st'.verts.getD o1 V3.zero = xpt n bias V0 (t.get k) (t.get ((k + 1) % 3)) ∨
-        st'.verts.getD o2 V3.zero = xpt n bias V0 (t.get k) (t.get ((k + 1) % 3))))
+        st'.verts.getD o2 V3.zero = xpt n bias V0 (t.get k) (t.get ((k + 1) % 3)))) ∧
+     (∀ k k', k < 3 → k' < 3 → k ≠ k' → CrossedEdge n bias eps V0 t k → CrossedEdge n bias eps V0 t k' →
+       (st'.found.lookup (edgeKey t k) = some o1 ∧ st'.found.lookup (edgeKey t k') = some o2) ∨
+       (st'.found.lookup (edgeKey t k) = some o2 ∧ st'.found.lookup (edgeKey t k') = some o1)))
 
 /-- for the section routine: a `Vertex(i)` feature names a vertex of colour 0 -/
 def VertexOK' (c : Nat → Nat) : Feat × Feat → Prop
@@ -361,27 +418,28 @@ theorem stepTri_ok (n : V3 K) (bias eps : K) (he : 0 ≤ eps) (V0 : Array (V3 K)
     simp only [CrossedEdge, ← hck] at ho
     exact no_opp c h k hk ho
   cases f0 <;> cases f1 <;> simp only [ClassifyOK, VertexOK'] at hOK hV
-  · exact ⟨st, rfl, hI, fun _ _ => rfl, le_refl _, Or.inl ⟨rfl, nocross hOK⟩⟩
-  · exact ⟨st, rfl, hI, fun _ _ => rfl, le_refl _, Or.inl ⟨rfl, nocross hOK⟩⟩
+  · exact ⟨st, rfl, hI, fun _ _ => rfl, le_refl _, fun _ _ x => x, Or.inl ⟨rfl, nocross hOK⟩⟩
+  · exact ⟨st, rfl, hI, fun _ _ => rfl, le_refl _, fun _ _ x => x, Or.inl ⟨rfl, nocross hOK⟩⟩
   · rename_i iv1 iv2
     have A1 := alloc_existing sq n bias eps V0 st (idx.get iv1) hI.tables
     have A2 := alloc_existing sq n bias eps V0 (Section.existingVertex V0 st (idx.get iv1)).1 (idx.get iv2) A1.2.1
-    obtain ⟨st', e, I', E, kp, sz, p1, p2⟩ := link_ok n bias eps V0 st _ _ _ _ _ _ hI A1 A2 false
-    refine ⟨st', e, I', kp, sz, Or.inr ⟨_, _, E, ?_, ?_, ?_⟩⟩
+    obtain ⟨st', e, I', E, kp, sz, p1, p2, mono, _⟩ := link_ok n bias eps V0 st _ _ _ _ _ _ hI A1 A2 false
+    refine ⟨st', e, I', kp, sz, mono, Or.inr ⟨_, _, E, ?_, ?_, ?_, ?_⟩⟩
     · rw [p1]; exact Or.inl ⟨iv1, hV.2.2.1, by rw [← hck]; exact hV.1, rfl⟩
     · rw [p2]; exact Or.inl ⟨iv2, hV.2.2.2, by rw [← hck]; exact hV.2.1, rfl⟩
     · intro k hk ho; exact absurd ho (nocross hOK k hk)
+    · intro k k' hk hk' _ ho _; exact absurd ho (nocross hOK k hk)
   · rename_i iv ie
     obtain ⟨hiv, hie, hcz, hopp⟩ := hOK
     subst hiv
     simp only [ne_eq, not_true_eq_false, if_false]
     have hopp' : OppCol (vcol n bias eps V0 (idx.get ie)) (vcol n bias eps V0 (idx.get ((ie + 1) % 3))) := by
       rw [← hck, ← hck]; exact hopp
-    have A1 := alloc_isect sq n bias eps he V0 st (idx.get ie) (idx.get ((ie + 1) % 3)) hI.tables hopp'
+    obtain ⟨A1, _⟩ := alloc_isect sq n bias eps he V0 st (idx.get ie) (idx.get ((ie + 1) % 3)) hI.tables hopp'
     have A2 := alloc_existing sq n bias eps V0 (Section.intersectEdge n bias V0 st (idx.get ie) (idx.get ((ie + 1) % 3))).1
       (idx.get ((ie + 2) % 3)) A1.2.1
-    obtain ⟨st', e, I', E, kp, sz, p1, p2⟩ := link_ok n bias eps V0 st _ _ _ _ _ _ hI A1 A2 true
-    refine ⟨st', e, I', kp, sz, Or.inr ⟨_, _, E, ?_, ?_, ?_⟩⟩
+    obtain ⟨st', e, I', E, kp, sz, p1, p2, mono, _⟩ := link_ok n bias eps V0 st _ _ _ _ _ _ hI A1 A2 true
+    refine ⟨st', e, I', kp, sz, mono, Or.inr ⟨_, _, E, ?_, ?_, ?_, ?_⟩⟩
     · rw [p1]; exact Or.inr ⟨ie, hie, hopp', rfl⟩
     · rw [p2]; exact Or.inl ⟨(ie + 2) % 3, by omega, by rw [← hck]; exact hcz, rfl⟩
     · intro k hk ho
@@ -389,17 +447,20 @@ theorem stepTri_ok (n : V3 K) (bias eps : K) (he : 0 ≤ eps) (V0 : Array (V3 K)
       have := ve_only c ie k hie hk hcz ho
       subst this
       left; exact p1
+    · intro k k' hk hk' hne ho ho'
+      simp only [CrossedEdge, ← hck] at ho ho'
+      exact absurd ((ve_only c ie k hie hk hcz ho).trans (ve_only c ie k' hie hk' hcz ho').symm) hne
   · rename_i ie iv
     obtain ⟨hiv, hie, hcz, hopp⟩ := hOK
     subst hiv
     simp only [ne_eq, not_true_eq_false, if_false]
     have hopp' : OppCol (vcol n bias eps V0 (idx.get ie)) (vcol n bias eps V0 (idx.get ((ie + 1) % 3))) := by
       rw [← hck, ← hck]; exact hopp
-    have A1 := alloc_isect sq n bias eps he V0 st (idx.get ie) (idx.get ((ie + 1) % 3)) hI.tables hopp'
+    obtain ⟨A1, _⟩ := alloc_isect sq n bias eps he V0 st (idx.get ie) (idx.get ((ie + 1) % 3)) hI.tables hopp'
     have A2 := alloc_existing sq n bias eps V0 (Section.intersectEdge n bias V0 st (idx.get ie) (idx.get ((ie + 1) % 3))).1
       (idx.get ((ie + 2) % 3)) A1.2.1
-    obtain ⟨st', e, I', E, kp, sz, p1, p2⟩ := link_ok n bias eps V0 st _ _ _ _ _ _ hI A1 A2 true
-    refine ⟨st', e, I', kp, sz, Or.inr ⟨_, _, E, ?_, ?_, ?_⟩⟩
+    obtain ⟨st', e, I', E, kp, sz, p1, p2, mono, _⟩ := link_ok n bias eps V0 st _ _ _ _ _ _ hI A1 A2 true
+    refine ⟨st', e, I', kp, sz, mono, Or.inr ⟨_, _, E, ?_, ?_, ?_, ?_⟩⟩
     · rw [p1]; exact Or.inr ⟨ie, hie, hopp', rfl⟩
     · rw [p2]; exact Or.inl ⟨(ie + 2) % 3, by omega, by rw [← hck]; exact hcz, rfl⟩
     · intro k hk ho
@@ -407,6 +468,9 @@ theorem stepTri_ok (n : V3 K) (bias eps : K) (he : 0 ≤ eps) (V0 : Array (V3 K)
       have := ve_only c ie k hie hk hcz ho
       subst this
       left; exact p1
+    · intro k k' hk hk' hne ho ho'
+      simp only [CrossedEdge, ← hck] at ho ho'
+      exact absurd ((ve_only c ie k hie hk hcz ho).trans (ve_only c ie k' hie hk' hcz ho').symm) hne
   · rename_i e1 e2
     dsimp only
     generalize (if e2 ≠ (e1 + 1) % 3 then e1 else e2) = e at hOK
@@ -416,11 +480,19 @@ theorem stepTri_ok (n : V3 K) (bias eps : K) (he : 0 ≤ eps) (V0 : Array (V3 K)
       rw [← hck, ← hck]; exact hca
     have hab' : OppCol (vcol n bias eps V0 (idx.get e)) (vcol n bias eps V0 (idx.get ((e + 1) % 3))) := by
       rw [← hck, ← hck]; exact hab
-    have A1 := alloc_isect sq n bias eps he V0 st (idx.get ((e + 2) % 3)) (idx.get e) hI.tables hca'
-    have A2 := alloc_isect sq n bias eps he V0 (Section.intersectEdge n bias V0 st (idx.get ((e + 2) % 3)) (idx.get e)).1 (idx.get e)
+    obtain ⟨A1, L1⟩ := alloc_isect sq n bias eps he V0 st (idx.get ((e + 2) % 3)) (idx.get e) hI.tables hca'
+    obtain ⟨A2, L2⟩ := alloc_isect sq n bias eps he V0 (Section.intersectEdge n bias V0 st (idx.get ((e + 2) % 3)) (idx.get e)).1 (idx.get e)
       (idx.get ((e + 1) % 3)) A1.2.1 hab'
-    obtain ⟨st', e', I', E, kp, sz, p1, p2⟩ := link_ok n bias eps V0 st _ _ _ _ _ _ hI A1 A2 false
-    refine ⟨st', e', I', kp, sz, Or.inr ⟨_, _, E, ?_, ?_, ?_⟩⟩
+    have L1' := A2.2.2.2.2.2.2 _ _ L1
+    obtain ⟨st', e', I', E, kp, sz, p1, p2, mono, hf⟩ := link_ok n bias eps V0 st _ _ _ _ _ _ hI A1 A2 false
+    have K1 : st'.found.lookup (edgeKey idx ((e + 2) % 3)) = some
+        (Section.intersectEdge n bias V0 st (idx.get ((e + 2) % 3)) (idx.get e)).2 := by
+      rw [hf]; simp only [edgeKey, hmod]; exact L1'
+    have K2 : st'.found.lookup (edgeKey idx e) = some
+        (Section.intersectEdge n bias V0 (Section.intersectEdge n bias V0 st (idx.get ((e + 2) % 3)) (idx.get e)).1 (idx.get e)
+          (idx.get ((e + 1) % 3))).2 := by
+      rw [hf]; exact L2
+    refine ⟨st', e', I', kp, sz, mono, Or.inr ⟨_, _, E, ?_, ?_, ?_, ?_⟩⟩
     · rw [p1]; exact Or.inr ⟨(e + 2) % 3, by omega, by rw [hmod]; exact hca', by rw [hmod]⟩
     · rw [p2]; exact Or.inr ⟨e, hie, hab', rfl⟩
     · intro k hk ho
@@ -428,6 +500,13 @@ theorem stepTri_ok (n : V3 K) (bias eps : K) (he : 0 ≤ eps) (V0 : Array (V3 K)
       rcases ee_only c e k hie hk hnbc ho with rfl | rfl
       · left; rw [p1, hmod]
       · right; exact p2
+    · intro k k' hk hk' hne ho ho'
+      simp only [CrossedEdge, ← hck] at ho ho'
+      rcases ee_only c e k hie hk hnbc ho with h1 | h1 <;> rcases ee_only c e k' hie hk' hnbc ho' with h2 | h2
+      · exact absurd (h1.trans h2.symm) hne
+      · rw [h1, h2]; exact Or.inl ⟨K1, K2⟩
+      · rw [h1, h2]; exact Or.inr ⟨K2, K1⟩
+      · exact absurd (h1.trans h2.symm) hne
 
 /-- the triangle loop: no panic, the structural invariant, and the chain of per-triangle relations -/
 theorem stepLoop_ok (n : V3 K) (bias eps : K) (he : 0 ≤ eps) (V0 : Array (V3 K)) (colors : Array Nat) (tris : List Tri)
@@ -468,7 +547,7 @@ theorem sinv_init (n : V3 K) (bias eps : K) (V0 : Array (V3 K)) :
     letI := fieldNum K sq
     SInv n bias eps V0 (⟨#[], [], [], #[]⟩ : Section.State K) := by
   letI : Num K := fieldNum K sq
-  refine ⟨rfl, ⟨by intro k v h; simp at h, by intro k v h; simp at h⟩, ?_, ?_⟩
+  refine ⟨rfl, ⟨by intro k v h; simp at h, by intro k v h; simp at h, by intro k k' v h; simp at h⟩, ?_, ?_⟩
   · intro i j h; simp [AEdge] at h
   · intro i j h; simp [AEdge] at h
 
